@@ -1,5 +1,4 @@
-//! C11 counterexample search (run only after the Verus unit `tsig` reported a failed obligation, or in the thorough
-//! tier): on the real crate, (1) Time48: wire round trip for times around every byte boundary, eq_fudged against
+//! C11 native search (a bounded exploration of the real crate, run on every check; it also supplies the concrete input when a Verus obligation of the property fails): on the real crate, (1) Time48: wire round trip for times around every byte boundary, eq_fudged against
 //! |a - b| <= fudge on a grid around the edges; (2) Key::new accepts exactly the RFC 8945 5.2.2.1 lengths for all four
 //! algorithms and all lengths 0..=70; (3) for every accepted signing length of HMAC-SHA256 a request, its answer and a
 //! sequence of three answers signed by one side verify on the other, a flipped octet is rejected, and a run of 99
